@@ -267,7 +267,8 @@ static void do_os(char **tok, int n)
 	addrxlat_ctx_t *ctx;
 	addrxlat_cb_t *cb;
 	addrxlat_sys_t *sys;
-	addrxlat_opt_t opts[12];
+	addrxlat_opt_t opts[12], opts2[14];
+	int hist = 0;
 	addrxlat_fulladdr_t root;
 	unsigned optc = 0;
 	static char *celltok[MAXCELLS];
@@ -299,6 +300,8 @@ static void do_os(char **tok, int n)
 			if (t[3] != '-') addrxlat_opt_phys_base(&opts[optc++], hx(t + 3));
 		} else if (!strncmp(t, "vb=", 3)) {
 			if (t[3] != '-') addrxlat_opt_virt_bits(&opts[optc++], hx(t + 3));
+		} else if (!strncmp(t, "hist=", 5)) {
+			hist = (int)hx(t + 5);
 		} else if (!strncmp(t, "xx=", 3)) {
 			if (t[3] != '-') addrxlat_opt_xen_xlat(&opts[optc++], hx(t + 3));
 		} else if (!strncmp(t, "root=", 5)) {
@@ -334,6 +337,22 @@ static void do_os(char **tok, int n)
 	cb->sym_value = sym_cb; cb->reg_value = reg_cb; cb->num_value = num_cb;
 	cb->sym_sizeof = sizeof_cb; cb->sym_offsetof = offsetof_cb;
 	sys = addrxlat_sys_new();
+	/* hist=n: the same object has been used before: n earlier initialisations, alternately as a
+	 * Xen PV kernel (xen_xlat=1: M2P memory array and p2m methods) and as the case itself */
+	for (i = 0; i < hist; ++i) {
+		if (i % 2 == 0) {
+			int k, have = 0;
+			memcpy(opts2, opts, sizeof opts);
+			for (k = 0; k < optc; ++k)
+				if (opts2[k].idx == ADDRXLAT_OPT_xen_xlat) { addrxlat_opt_xen_xlat(&opts2[k], 1); have = 1; }
+			k = optc;
+			if (!have) addrxlat_opt_xen_xlat(&opts2[k++], 1);
+			addrxlat_opt_xen_p2m_mfn(&opts2[k++], 0x1234);
+			addrxlat_sys_os_init(sys, ctx, k, opts2);
+		} else
+			addrxlat_sys_os_init(sys, ctx, optc, opts);
+		addrxlat_ctx_clear_err(ctx);
+	}
 	st = addrxlat_sys_os_init(sys, ctx, optc, opts);
 	printf("%d", (int)st);
 	dump_sys(sys);
